@@ -137,6 +137,7 @@ type Prop struct {
 	// Budget: soft deadline per tier (seconds); a run that hits it ends exit 0, exhaustive:false
 	QuickBudget, ThoroughBudget int
 	Serial                      bool // do not shard
+	NoQuickPhase                bool // thorough tier: do not run the quick parameter space first (the thorough run is a breadth-first superset)
 }
 
 var Registry = map[string]*Prop{}
@@ -195,7 +196,43 @@ func workerMain(args []string) {
 	if dl > 0 {
 		c.Deadline = time.Unix(dl, 0)
 	}
-	p.Run(c)
+	if tier == "thorough" && !p.NoQuickPhase {
+		// phase 1: the quick tier's whole parameter space first (so that a deadline in the deeper pass never
+		// leaves late cases unexplored), phase 2: the thorough parameters
+		c.Tier = "quick"
+		p.Run(c)
+		q := c.Res
+		c.Tier = "thorough"
+		c.Res = NewResult()
+		p.Run(c)
+		t := c.Res
+		t.Evaluations += q.Evaluations
+		t.States += q.States
+		t.Transitions += q.Transitions
+		t.Traces += q.Traces
+		for k, v := range q.Classes {
+			t.Classes[k] += v
+		}
+		for k, v := range q.Counters {
+			t.Counters["quick_phase_"+k] += v
+		}
+		t.Violations = append(q.Violations, t.Violations...)
+		t.EngineErrors = append(q.EngineErrors, t.EngineErrors...)
+		t.Notes = append(q.Notes, t.Notes...)
+		if !q.Exhaustive {
+			t.Exhaustive = false
+			t.BoundCompleted = min(q.BoundCompleted, t.BoundCompleted)
+			t.Notes = append(t.Notes, "the quick-tier phase itself was cut short by the deadline")
+		} else if !t.Exhaustive {
+			t.Counters["quick_phase_completed_exhaustively"] = 1
+			if q.BoundCompleted > t.BoundCompleted {
+				// every case of the quick tier's space was explored to this bound; the deeper pass was cut short
+				t.BoundCompleted = q.BoundCompleted
+			}
+		}
+	} else {
+		p.Run(c)
+	}
 	b, _ := json.Marshal(c.Res)
 	if err := os.WriteFile(out, b, 0o644); err != nil {
 		fmt.Fprintln(os.Stderr, err)
